@@ -474,3 +474,211 @@ def classify(kind, el, box):
     if bx[0] > x1 or bx[2] < x0 or bx[1] > y1 or bx[3] < y0:
         return 'bbox_disjoint'
     return 'bbox_overlaps_no_contact'
+
+
+# ----------------------------------------------------------------------------
+# the object-history stream (harness/c01.py history_stream): elements, boxes, histories
+# ----------------------------------------------------------------------------
+_DEPTH = {'point': 0, 'multipoint': 0, 'line': 0, 'ring': 0, 'multiline': 1, 'polygon': 1, 'multipolygon': 2}
+_RINGS = {}
+
+
+def shift(e, dx, dy, depth):
+    """the element moved by (dx, dy); depth = nesting above the interleaved coordinate lists"""
+    if e is None:
+        return None
+    if depth:
+        return [shift(x, dx, dy, depth - 1) for x in e]
+    return [c + (dy if i & 1 else dx) for i, c in enumerate(e)]
+
+
+def _rings(vals):
+    if vals not in _RINGS:
+        _RINGS[vals] = simple_rings(list(vals), (3, 4))
+    return _RINGS[vals]
+
+
+def _history_polygon(rng):
+    """one valid polygon with integer vertices in -2..26: a small simple ring, a square with a hole
+    wound the other way, or a frame around the whole scene (a box then lies in its hole) / a slab
+    over it (a box then lies strictly inside it)"""
+    r = rng.random()
+    cw = rng.random() < .5
+    if r < .08:        # frame: the queries fall into the hole or onto the rim
+        a, b = rng.choice([0, 1, 2]), rng.choice([3, 5, 9])
+        return [close([(-2, -2), (26, -2), (26, 26), (-2, 26)], cw=cw, rot=rng.randrange(4)),
+                close([(a, a), (26 - b, a), (26 - b, 26 - b), (a, 26 - b)], cw=not cw, rot=rng.randrange(4))]
+    if r < .14:        # slab
+        a = rng.choice([0, 2, 6])
+        return [close([(-2 + a, -1), (26 - a, -1), (26 - a, 25), (-2 + a, 25)], cw=cw, rot=rng.randrange(4))]
+    if r < .34:
+        dx, dy = 2 * rng.randint(0, 8), 2 * rng.randint(0, 8)
+        h = rng.choice(_rings((2, 4, 6)))
+        return shift([close([(0, 0), (8, 0), (8, 8), (0, 8)], cw=cw, rot=rng.randrange(4)),
+                      close(h, cw=not cw, rot=rng.randrange(len(h)))], dx, dy, 1)
+    dx, dy = 2 * rng.randint(0, 10), 2 * rng.randint(0, 10)
+    s = rng.choice(_rings((0, 2, 4)))
+    return shift([close(s, cw=cw, rot=rng.randrange(len(s)))], dx, dy, 1)
+
+
+def history_elements(rng, kind, n, q=1):
+    """n elements of the kind scattered over [0,24]^2 (integer vertices, exact in every subtype),
+    missing and empty ones among them; polygons are valid, so that the point-set oracle applies.
+    q > 1: the same in units of 1/q, each element moved off the integer lattice by a multiple of 1/q"""
+    if q != 1:
+        depth = _DEPTH[kind]
+        return [None if e is None else shift(scale_el(e, q), rng.randint(0, q - 1), rng.randint(0, q - 1), depth)
+                for e in history_elements(rng, kind, n)]
+    out = []
+    for i in range(n):
+        r = rng.random()
+        if r < .1 or i == 3:
+            out.append(None)
+            continue
+        if r < .17 and kind != 'point':
+            out.append([])
+            continue
+        dx, dy = rng.randint(0, 18), rng.randint(0, 18)
+
+        def coords(k):
+            return [rng.randint(0, 6) for _ in range(2 * k)]
+        if kind == 'point':
+            e = [rng.randint(0, 24), rng.randint(0, 24)]
+        elif kind == 'multipoint':
+            e = shift(coords(rng.randint(1, 3)), dx, dy, 0)
+        elif kind == 'line':
+            e = shift(coords(rng.randint(1, 4)), dx, dy, 0)
+        elif kind == 'ring':
+            c = coords(rng.randint(2, 3))
+            e = shift(c + c[:2], dx, dy, 0)
+        elif kind == 'multiline':
+            e = shift([coords(rng.randint(0 if rng.random() < .1 else 1, 3)) for _ in range(rng.randint(1, 3))],
+                      dx, dy, 1)
+        elif kind == 'polygon':
+            e = _history_polygon(rng)
+        else:
+            e = [_history_polygon(rng) for _ in range(rng.randint(1, 2))]
+            if rng.random() < .1:
+                e.insert(rng.randrange(len(e) + 1), [])
+        out.append(e)
+    return out
+
+
+def history_boxes(rng, kind, q=1):
+    """canonical boxes (medium, small, large, far away, two random ones; for points and multipoints
+    also a vertical line and a single point), each followed by its three other corner orders.
+    q > 1: in units of 1/q, corners off the integer lattice"""
+    def span(lo, hi, wmin, wmax):
+        w = rng.randint(wmin, wmax)
+        a = rng.randint(lo, hi - w)
+        return a * q + rng.randint(0, q - 1), (a + w) * q + rng.randint(0, q - 1)
+    canon = []
+    for (wmin, wmax) in ((4, 12), (1, 2), (20, 26), (4, 12), (2, 16)):
+        x0, x1 = span(-1, 26, wmin, wmax)
+        y0, y1 = span(-1, 26, wmin, wmax)
+        canon.append((x0, y0, x1, y1))
+    canon.append((30 * q, 29 * q, 34 * q + q // 2, 33 * q))
+    if kind in ('point', 'multipoint'):
+        x = rng.randint(2, 22) * q + rng.randint(0, q - 1)
+        canon.append((x, 0, x, 24 * q))
+        canon.append((x, x, x, x))
+    rng.shuffle(canon)
+    return [reorder(b, k) for b in canon for k in range(4)]
+
+
+HISTORIES = ['build_sindex()', '.sindex', 'build_sindex(page_size=4)', 'build_sindex(p=3, page_size=1)',
+             'GeoSeries.sindex', 'GeoSeries.build_sindex(page_size=2)', 'GeoDataFrame.build_sindex()',
+             'GeoSeries of an indexed array', 'queried before', 'bounds computed before',
+             'indexed, then derived', 'derived, then indexed', 'cx on the indexed array']
+
+
+def history_params(rng, n):
+    perm = list(range(n))
+    rng.shuffle(perm)
+    return {'k': rng.randint(1, max(1, n // 3)), 'perm': perm + perm[:3],
+            'mask': [rng.random() < .7 for _ in range(n)]}
+
+
+def _derived(arr, prm):
+    """[(label, derived array, positions of its elements in the parent)]"""
+    import pickle
+    n, k = len(arr), prm['k']
+    perm = prm['perm']
+    mask = prm['mask']
+    return [(f'[{k}:]', arr[k:], list(range(k, n))),
+            ('[::-1]', arr[::-1], list(range(n - 1, -1, -1))),
+            ('.take(perm)', arr.take(np.array(perm, dtype='int64')), list(perm)),
+            ('.copy()', arr.copy(), list(range(n))),
+            ('pickle round trip', pickle.loads(pickle.dumps(arr)), list(range(n))),
+            (f'concat([a[{k}:], a[:{k}]])', type(arr)._concat_same_type([arr[k:], arr[:k]]),
+             list(range(k, n)) + list(range(k))),
+            ('[mask]', arr[np.array(mask, dtype=bool)], [i for i in range(n) if mask[i]])]
+
+
+def history_objects(hist, arr, prm, far=(30, 29, 34, 33)):
+    """perform the named sequence of PUBLIC operations on the freshly built array `arr`;
+    -> [(label, array to query, GeoSeries to query or None, positions of its elements in arr)]"""
+    from spatialpandas import GeoDataFrame, GeoSeries
+    n = len(arr)
+    ident = list(range(n))
+    labels = [f'r{i}' for i in range(n)]
+    if hist == 'none':
+        return [('', arr, None, ident)]
+    if hist == 'build_sindex()':
+        r = arr.build_sindex()
+        return [('', arr, None, ident)] + ([('returned object', r, None, ident)] if r is not arr and r is not None else [])
+    if hist == '.sindex':
+        arr.sindex
+        arr.sindex
+        return [('', arr, None, ident)]
+    if hist == 'build_sindex(page_size=4)':
+        arr.build_sindex(page_size=4)
+        return [('', arr, None, ident)]
+    if hist == 'build_sindex(p=3, page_size=1)':
+        arr.build_sindex(p=3, page_size=1)
+        arr.build_sindex()          # a second request keeps the first index
+        return [('', arr, None, ident)]
+    if hist == 'GeoSeries.sindex':
+        s = GeoSeries(arr, index=labels)
+        s.sindex
+        return [('', s.array, s, ident), ('the array the series was made from', arr, None, ident)]
+    if hist == 'GeoSeries.build_sindex(page_size=2)':
+        s = GeoSeries(arr, index=labels)
+        s.build_sindex(page_size=2)
+        return [('', s.array, s, ident)]
+    if hist == 'GeoDataFrame.build_sindex()':
+        df = GeoDataFrame({'geometry': GeoSeries(arr, index=labels), 'v': np.arange(n)})
+        df.build_sindex()
+        s = df.geometry
+        return [('', s.array, s, ident)]
+    if hist == 'GeoSeries of an indexed array':
+        arr.build_sindex()
+        s = GeoSeries(arr, index=labels)
+        return [('', s.array, s, ident), ('the array', arr, None, ident)]
+    if hist == 'queried before':
+        arr.intersects_bounds(far)
+        arr.intersects_bounds(reorder((3, 2, 17, 11), 3))
+        arr.intersects_bounds(reorder((3, 2, 17, 11), 1), np.array(prm['perm'][:5], dtype='int64'))
+        if n:
+            arr[n // 2]
+        return [('', arr, None, ident)]
+    if hist == 'bounds computed before':
+        arr.bounds
+        arr.total_bounds
+        arr.isna()
+        return [('', arr, None, ident)]
+    if hist == 'indexed, then derived':
+        arr.build_sindex()
+        return [(lab, d, None, pos) for lab, d, pos in _derived(arr, prm)] + [('the parent', arr, None, ident)]
+    if hist == 'derived, then indexed':
+        out = []
+        for lab, d, pos in _derived(arr, prm):
+            d.build_sindex(page_size=3)
+            out.append((lab, d, None, pos))
+        return out + [('the parent', arr, None, ident)]
+    if hist == 'cx on the indexed array':
+        arr.build_sindex(page_size=4)
+        arr.cx[3:17, 11:2]
+        arr.cx[:, 5:]
+        return [('', arr, None, ident)]
+    raise ValueError(hist)
